@@ -11,6 +11,8 @@
     so the penetration depth min_n h_{A-B}(n) lies in [r, D]. *)
 From Coq Require Import QArith Qreals Reals List.
 From D3 Require Import Base.Ops Base.Vec Base.RVec Spec.Convex Checker.Shapes Checker.Narrow Checker.Pen.
+From D3 Require Import Model.Epa Proofs.Epa.
+From Coq Require Import Lra.
 Import ListNotations.
 
 (** upper and lower depth bounds can never contradict each other *)
@@ -76,6 +78,34 @@ Example C07_nonvacuous :
   /\ too_long_cert ex_cube1 ex_cube2 (V 1 0 0) (V (1 # 2) 0 0) (1 # 1000000) = false.
 Proof. repeat split; vm_compute; reflexivity. Qed.
 
+(** ** about the model of epa()'s success exit (Model/Epa.v), exact real arithmetic, all inputs.
+    PARTIAL: only the exit step is modelled.  Missing: that the exit direction is the direction of minimum
+    extent (polytope invariant of the expansion loop, not modelled) and that the Euclidean gap after the
+    translation is 0 (needs mtv in A - B); both are decided per run by the certificates above. *)
+Theorem C07_epa_success_upper_partial : forall (A B : set3) (n pa pb : V3R),
+  norm n = 1%R -> is_support A n pa -> is_support B (vneg n) pb ->
+  let mtv := epa_exit_mtv (O:=ROps) n pa pb in
+  (forall a b, A a -> translate mtv B b -> (dot (vsub a b) n <= 0)%R) /\
+  dot (vsub pa (vadd pb mtv)) n = 0%R /\
+  norm mtv = Rabs (dot (vsub pa pb) n).
+Proof. exact epa_exit_separates. Qed.
+
+Example C07_epa_exit_nonvacuous :
+  let pa : V3R := V 1%R 0%R 0%R in
+  let pb : V3R := V (1 / 2)%R 0%R 0%R in
+  let A : set3 := fun x => x = pa in
+  let B : set3 := fun x => x = pb in
+  let n : V3R := V 1%R 0%R 0%R in
+  norm n = 1%R /\ is_support A n pa /\ is_support B (vneg n) pb /\
+  epa_exit_mtv (O:=ROps) n pa pb = V (1 / 2)%R 0%R 0%R.
+Proof.
+  cbv zeta. split; [|split; [|split]].
+  - unfold norm, dot. cbn [vx vy vz sqrt mul add ROps]. replace (1 * 1 + 0 * 0 + 0 * 0)%R with 1%R by ring. apply sqrt_1.
+  - split; [reflexivity|]. intros x ->. lra.
+  - split; [reflexivity|]. intros x ->. lra.
+  - unfold epa_exit_mtv, epa_new_point, vscale, vsub, dot. cbn [vx vy vz mul add sub ROps]. f_equal; field.
+Qed.
+
 Print Assumptions C07_bounds_consistent.
 Print Assumptions C07_no_shorter_translation.
 Print Assumptions C07_depth_lower_bound_sound.
@@ -83,3 +113,5 @@ Print Assumptions C07_touching_after_translation_sound.
 Print Assumptions C07_result_certificate_sound.
 Print Assumptions C07_too_long_refutation_sound.
 Print Assumptions C07_nonvacuous.
+Print Assumptions C07_epa_success_upper_partial.
+Print Assumptions C07_epa_exit_nonvacuous.
